@@ -40,6 +40,13 @@ pub enum Aspect {
     Steps,
     Ends,
     Inside,
+    /// all three (C19: the protocol as a whole)
+    All,
+}
+impl Aspect {
+    fn has(self, a: Aspect) -> bool {
+        self == a || self == Aspect::All
+    }
 }
 
 struct Run {
@@ -127,7 +134,7 @@ pub fn check(c: &XCase, aspect: Aspect) -> Outcome {
     };
     let what = format!("dense_output={:?}, XOut answered at callbacks {:?}{}", c.dense, script.iter().map(|(k, _)| *k).collect::<Vec<_>>(), c.every.map_or(String::new(), |e| format!(", equidistant output every {:.3} of the span", e)));
     // ---- steps: XOut answers do not move the accepted-step grid or the states
-    if aspect == Aspect::Steps {
+    if aspect.has(Aspect::Steps) {
         if b.status != a.status || b.recs.len() != a.recs.len() {
             return Outcome::viol(format!("{}: {} callbacks / {} when the callback answers XOut, {} / {} when it answers Continue ({})", name, b.recs.len(), status_name(b.status), a.recs.len(), status_name(a.status), what));
         }
@@ -148,7 +155,7 @@ pub fn check(c: &XCase, aspect: Aspect) -> Outcome {
         }
         handed += 1;
         let p = &b.recs[k - 1];
-        if aspect == Aspect::Ends {
+        if aspect.has(Aspect::Ends) {
             let mut fy = vec![0.0; r.y.len()];
             crate::instr::Rhs::f(&prob, r.x, &r.y, &mut fy);
             let mut fo = vec![0.0; r.y.len()];
@@ -159,7 +166,7 @@ pub fn check(c: &XCase, aspect: Aspect) -> Outcome {
                 return Outcome::viol(format!("{}: the interpolant handed to callback {} does not reproduce the step's end states: |I(xold)-y_prev|={:e}, |I(x)-y|={:e} (tolerance {:e}; {})", name, k, d0, d1, tol, what));
             }
         }
-        if aspect == Aspect::Inside && k < a.recs.len() && a.recs[k].has_interp && a.recs[k].x.to_bits() == r.x.to_bits() && bits_eq(&a.recs[k].y, &r.y) {
+        if aspect.has(Aspect::Inside) && k < a.recs.len() && a.recs[k].has_interp && a.recs[k].x.to_bits() == r.x.to_bits() && bits_eq(&a.recs[k].y, &r.y) {
             let q = &a.recs[k];
             for (t, (u, v)) in q.at_theta.iter().zip(&r.at_theta).enumerate() {
                 if !bits_eq(u, v) {
